@@ -71,3 +71,34 @@ package blockchain
 //@   props C18 C08
 //@   aborts when [empty-message-confined-by-recover] len(bz) == 0
 //@   atcall ReadBinary assert [decode-is-size-limited] arg_lmt == maxBlockchainResponseSize && arg_lmt > 0
+
+// ---------------------------------------------------------------------------------------------
+// block store (C06): a block becomes visible (height marker, in-memory height) only after all of its data was written
+
+//@ func (*BlockStore).Height
+//@   props C06
+//@   requires bs != nil
+//@   pure
+//@   ensures result == bs.height
+
+//@ func (*BlockStore).saveBlockPart
+//@   props C06
+//@   requires bs != nil && bs.db != nil
+//@   aborts when height != bs.height + 1
+//@   nosafety
+//@   assigns nothing
+//@   atcall Set assert [one-write-per-part] calls(Set) == 0
+
+//@ func (*BlockStore).SaveBlock
+//@   props C06
+//@   requires bs != nil && bs.db != nil && block != nil && blockParts != nil && wfPartSet(blockParts)
+//@   aborts when [only-the-next-height-can-be-stored] block.Header.Height != bs.height + 1
+//@   aborts when [only-complete-part-sets-can-be-stored] blockParts.count != blockParts.total
+//@   nosafety
+//@   assigns allbut(types.Block, types.Header, types.Commit, types.Data, types.PartSet, types.Vote, gemmill.Angine, state.State, pbft.ConsensusState, pbft.RoundState, pbft.HeightVoteSet, types.VoteSet)
+//@   atcall Set assert [no-block-data-after-the-height-marker] calls(Save) == 0
+//@   atcall saveBlockPart assert [every-part-stored-before-the-height-marker] calls(Save) == 0 && arg_height == block.Header.Height && arg_index == calls(saveBlockPart)
+//@   atcall Save assert [height-marker-after-all-block-data] calls(Set) == 3 && calls(saveBlockPart) == blockParts.total && calls(Save) == 0
+//@   onwrite BlockStore.height assert [visible-height-only-after-the-durable-marker] calls(Save) == 1 && newval == block.Header.Height
+//@   ensures [store-height-advanced] bs.height == block.Header.Height
+//@   loop 0 invariant 0 <= i && i <= blockParts.total && wfPartSet(blockParts) && calls(saveBlockPart) == i && calls(Save) == 0 && calls(Set) == 1 && bs.height == old(bs.height) && bs.db != nil
